@@ -24,6 +24,11 @@ theorem budgets_per_outage : replierBudgetPerOutage = true ∧ requestorBudgetPe
 theorem recoverable_classification : ioConnectionResetRecoverable = true ∧ ioNotConnectedRecoverable = true ∧
     quicConnectionErrorRecoverable = true ∧ replierAlreadyBoundRecoverable = true := by decide
 
+/-- … and a connection that is lost while a (re-)registration awaits its answer reaches that classification as the read
+    error it is: `handle_reply` hands it on unchanged, so the attempt counts as a recoverable failure (`Attempt.recoverable`
+    in `reconnect`), not as a refusal by the server -/
+theorem registration_loss_is_an_ordinary_loss : registrationReadErrorPassedOn = true := by decide
+
 theorem reconnect_used_le (left : Nat) (rs : List Attempt) : (reconnect left rs).2 ≤ left := by
   induction left generalizing rs with
   | zero => simp [reconnect]
@@ -467,3 +472,4 @@ end Selium.SharedConn
 #print axioms Selium.SharedConn.c12_unconditional_redial_cuts_siblings
 #print axioms Selium.KeepAlive.c12_every_backoff_configuration_supplies_the_whole_budget
 #print axioms Selium.KeepAlive.c12_exhaustion_after_the_whole_schedule
+#print axioms Selium.KeepAlive.registration_loss_is_an_ordinary_loss
